@@ -174,6 +174,33 @@ def translate(run):
     return errors
 
 
+def gen_deps(prop_dir):
+    """names of the Gen/*.v modules the property's Coq files depend on (transitively through JrV imports)"""
+    seen, todo, gens = set(), [], set()
+    base = os.path.join(COQ, "theories")
+    d = os.path.join(base, prop_dir)
+    if os.path.isdir(d):
+        todo = [os.path.join(d, f) for f in os.listdir(d) if f.endswith(".v")]
+    while todo:
+        f = todo.pop()
+        if f in seen or not os.path.exists(f):
+            continue
+        seen.add(f)
+        txt = strip_comments(open(f, encoding="utf-8").read())
+        for m in re.finditer(r"Require\s+(?:Import|Export)\s+([^.]*(?:\.[A-Za-z_][^.\s]*)*)\.", txt):
+            pass
+        for m in re.finditer(r"(?:From\s+JrV\s+)?Require\s+(?:Import|Export)\s+((?:[\w.]+\s*)+)\.", txt):
+            for mod in m.group(1).split():
+                mod = mod[4:] if mod.startswith("JrV.") else mod
+                parts = mod.split(".")
+                if len(parts) == 2 and parts[0] == "Gen":
+                    gens.add(parts[1])
+                cand = os.path.join(base, *parts) + ".v"
+                if os.path.exists(cand):
+                    todo.append(cand)
+    return gens
+
+
 # ---------------------------------------------------------------- Coq
 def coq_files():
     out = []
